@@ -265,6 +265,10 @@ pub struct RunResult {
     pub signature: H128,
     /// (client, op index, outcome key) for every executed Lex / ReadShared
     pub outcomes: Vec<(usize, usize, String)>,
+    /// ops that had a crash planned: where (and whether) it fires depends on the hook event
+    /// stream, which a correct tree may emit differently per build, so these are left out of
+    /// the cross-build / cross-process outcome hash (they are still checked in-process)
+    pub crash_planned: Vec<(usize, usize)>,
     pub violations: Vec<Violation>,
     pub stats: Stats,
     /// switches actually taken, usable as an explicit schedule
@@ -278,6 +282,9 @@ impl RunResult {
         let mut v = self.outcomes.clone();
         v.sort();
         for (c, o, k) in &v {
+            if self.crash_planned.contains(&(*c, *o)) {
+                continue;
+            }
             h.u64(*c as u64);
             h.u64(*o as u64);
             h.bytes(k.as_bytes());
@@ -318,6 +325,7 @@ struct State {
     recorded: Vec<(u64, u32)>,
     stats: Stats,
     outcomes: Vec<(usize, usize, String)>,
+    crash_planned: Vec<(usize, usize)>,
     violations: Vec<Violation>,
     abort: bool,
     slots: Vec<Option<Arc<SharedRes>>>,
@@ -799,6 +807,9 @@ fn do_lex(
         st.stats.max_steps_per_byte_x100 = st.stats.max_steps_per_byte_x100.max(r);
     }
     st.outcomes.push((me, op_idx, key.clone()));
+    if lex.crash.is_some() {
+        st.crash_planned.push((me, op_idx));
+    }
     let crashed = matches!(outcome, Outcome::Crash);
     if crashed {
         // legal only if a crash was planned for this call
@@ -962,6 +973,7 @@ pub fn run_scenario(sc: &Scenario) -> RunResult {
         recorded: vec![(0, first as u32)],
         stats,
         outcomes: Vec::new(),
+        crash_planned: Vec::new(),
         violations: Vec::new(),
         abort: false,
         slots: vec![None; SHARED_SLOTS],
@@ -989,6 +1001,7 @@ pub fn run_scenario(sc: &Scenario) -> RunResult {
             trace: st.trace.finish(),
             signature: st.sig.finish(),
             outcomes: vec![],
+            crash_planned: vec![],
             violations: vec![],
             stats: st.stats.clone(),
             recorded: vec![],
@@ -1077,6 +1090,7 @@ pub fn run_scenario(sc: &Scenario) -> RunResult {
         trace: st.trace.finish(),
         signature: st.sig.finish(),
         outcomes: std::mem::take(&mut st.outcomes),
+        crash_planned: std::mem::take(&mut st.crash_planned),
         violations: std::mem::take(&mut st.violations),
         stats: st.stats.clone(),
         recorded: std::mem::take(&mut st.recorded),
